@@ -309,6 +309,16 @@ def run(chk):
         r3.ob("%s returns the value carried by Return_Value" % need, need in rv, "", "", "handlers returning rv.retval found in: %s" % sorted(rv))
     r3.require(10, "obligations")
 
+    # ------------------------------------------------------------------ R3.7
+    r7 = chk.rule("R3.7", "overloads are ordered: guarded script functions first among script functions, typed C++ functions before script functions, non-const before const, specific parameter types before the Boxed_Value / Boxed_Number catch-alls",
+                  "functions with typed parameters and guards: the most specific applicable definition is tried first")
+    flt = [g for g in prog.fns if g["name"] == "function_less_than" and (g.get("cls") or "").endswith("Dispatch_Engine")]
+    r7.anchor(flt, "Dispatch_Engine::function_less_than")
+    chk.touched(flt)
+    for name, (got, want) in sorted(ordering_table(prog, flt[0]).items()):
+        r7.ob("function_less_than: %s" % name, got == want, flt[0].where, flt[0]["q"], "comparator yields %s, expected %s" % (got, want))
+    r7.require(12, "ordering scenarios")
+
     # ------------------------------------------------------------------ R3.4
     r4 = chk.rule("R3.4", "block-structured constructs evaluate their children inside a scope of their own",
                   "block-scoped variables with shadowing; nothing declared inside a block, loop, case or try is visible after it")
@@ -392,3 +402,98 @@ def run(chk):
     byval = [c for c in inner[0].get("caps", []) if c.get("name") == "captures" and not c.get("byref")]
     r6.ob("Lambda: the callable owns its captured values (captured by copy, not by reference to a local)", bool(byval), f.where, f["q"], "`captures` is captured by reference: it dies with eval_internal")
     r6.require(2, "obligations")
+
+
+# ------------------------------------------------------------------ R3.7 helper: overload ordering as a decision table
+def ordering_table(prog, f):
+    """evaluate Dispatch_Engine::function_less_than on named scenarios; returns {scenario: bool | None}"""
+    flow = FnFlow(f)
+
+    def atom(text):
+        t = text.replace(" ", "")
+        if "get_guard" in t:
+            return "lhs_guard" if "dynamic_lhs" in t else ("rhs_guard" if "dynamic_rhs" in t else None)
+        if t.startswith("dynamic_lhs"):
+            return "lhs_dyn"
+        if t.startswith("dynamic_rhs"):
+            return "rhs_dyn"
+        if "lt.bare_equal(rt)" in t:
+            return "same_type"
+        if t.startswith("lt.is_const"):
+            return "l_const"
+        if t.startswith("rt.is_const"):
+            return "r_const"
+        if "lt.bare_equal(boxed_type)" in t:
+            return "l_boxed"
+        if "rt.bare_equal(boxed_type)" in t:
+            return "r_boxed"
+        if "lt.bare_equal(boxed_pod_type)" in t:
+            return "l_number"
+        if "rt.bare_equal(boxed_pod_type)" in t:
+            return "r_number"
+        if t.startswith("i<"):
+            return "in_range"
+        return None
+
+    def ev(e, env):
+        e = strip_casts(e)
+        k = e.get("k")
+        if k == "lit" and e.get("lt") == "bool":
+            return bool(e.get("v"))
+        if k == "unop" and e.get("op") == "!":
+            v = ev(e["e"], env)
+            return None if v is None else (not v)
+        if k == "binop" and e.get("op") in ("&&", "||"):
+            a, b = ev(e["lhs"], env), ev(e["rhs"], env)
+            if e["op"] == "&&":
+                if a is False or b is False:
+                    return False
+                return None if (a is None or b is None) else True
+            if a is True or b is True:
+                return True
+            return None if (a is None or b is None) else False
+        if k == "binop" and e.get("op") in ("==", "!="):
+            a, b = ev(e["lhs"], env), ev(e["rhs"], env)
+            if a is None or b is None:
+                return None
+            return (a == b) if e["op"] == "==" else (a != b)
+        if k == "cond":
+            c = ev(e["c"], env)
+            if c is None:
+                return None
+            return ev(e["a"] if c else e["b"], env)
+        a = atom(expr_str(prog, f, e))
+        if a is None:
+            raise AnalysisBroken("C03 R3.7: unrecognised predicate in function_less_than: %s" % expr_str(prog, f, e)[:80])
+        return env.get(a)
+
+    rets = [n for n in walk(f["body"]) if n.get("k") == "return" and n.get("e") is not None]
+
+    def decide(env):
+        env = dict(env, in_range=True)
+        for n in sorted(rets, key=lambda x: x["l"]):
+            facts = list(flow.facts(n))
+            vals = [(ev(c, env), t) for c, t in facts]
+            if any(v is None for v, _ in vals):
+                continue
+            if all(v == t for v, t in vals):
+                return ev(n["e"], env)
+        return None
+
+    base = {"lhs_dyn": False, "rhs_dyn": False, "lhs_guard": False, "rhs_guard": False, "same_type": False, "l_const": False, "r_const": False,
+            "l_boxed": False, "r_boxed": False, "l_number": False, "r_number": False}
+    sc = {
+        "guarded script function before unguarded": (dict(base, lhs_dyn=True, rhs_dyn=True, lhs_guard=True, rhs_guard=False), True),
+        "unguarded script function not before guarded": (dict(base, lhs_dyn=True, rhs_dyn=True, lhs_guard=False, rhs_guard=True), False),
+        "two guarded script functions keep their order": (dict(base, lhs_dyn=True, rhs_dyn=True, lhs_guard=True, rhs_guard=True), False),
+        "two unguarded script functions keep their order": (dict(base, lhs_dyn=True, rhs_dyn=True), False),
+        "typed C++ function before script function": (dict(base, lhs_dyn=False, rhs_dyn=True), True),
+        "script function not before typed C++ function": (dict(base, lhs_dyn=True, rhs_dyn=False), False),
+        "non-const parameter before const parameter of the same type": (dict(base, same_type=True, l_const=False, r_const=True), True),
+        "const parameter not before non-const parameter of the same type": (dict(base, same_type=True, l_const=True, r_const=False), False),
+        "specific parameter before the Boxed_Value catch-all": (dict(base, r_boxed=True), True),
+        "Boxed_Value catch-all not before a specific parameter": (dict(base, l_boxed=True), False),
+        "specific parameter before the Boxed_Number catch-all": (dict(base, r_number=True), True),
+        "Boxed_Number catch-all not before a specific parameter": (dict(base, l_number=True), False),
+    }
+    return {name: (decide(env), want) for name, (env, want) in sc.items()}
